@@ -3,3 +3,8 @@ import DynetxProofs.Lemmas.Timeline
 import DynetxProofs.Lemmas.Fields
 import DynetxProofs.Lemmas.Step
 import DynetxProofs.Lemmas.WF
+import DynetxProofs.Lemmas.Core
+import DynetxProofs.Spec
+import DynetxProofs.Lemmas.History
+import DynetxProofs.Lemmas.HistoryMore
+import DynetxProofs.Properties
